@@ -19,6 +19,9 @@ analysis (RQA) and recurrence network analysis.
 """
 
 # array object and fast numerics
+from typing import Tuple
+from collections.abc import Hashable
+
 import numpy as np
 
 from ..core import Network
@@ -150,6 +153,14 @@ class JointRecurrenceNetwork(JointRecurrencePlot, Network):
         else:
             raise ValueError("Delay value (lag) must not exceed length of \
                              time series!")
+
+    def __cache_state__(self) -> Tuple[Hashable, ...]:
+        try:
+            network_state = Network.__cache_state__(self)
+        except AttributeError:
+            # network part not initialised yet
+            network_state = ()
+        return JointRecurrencePlot.__cache_state__(self) + network_state
 
     def __str__(self):
         """
